@@ -32,6 +32,7 @@ def check(ctx):
     # (C06.e: the iterator scans the caller's own input — a haystack that was trimmed, copied or re-encoded on the way gives spans that do not fit the string the caller holds)
     from . import pC06
     pC06.fresh_iterator_rules(ctx)
+    pC06.mode_forward_rules(ctx)    # (C06.g: a set_mode of a wrapper switches the mode and does nothing else — a cursor moved on the side takes spans backwards)
     from .common import cache_foundation, language_foundation
     language_foundation(ctx)
     cache_foundation(ctx)
